@@ -136,6 +136,31 @@ var solvers = []SolverSpec{
 	}},
 }
 
+// retrySolvers: a diversified portfolio used only when the first attempt came back unknown. Quantifier
+// instantiation is seed- and heuristic-sensitive (some contracts contain forall-exists pairs that can feed each
+// other); different seeds / thresholds decide in milliseconds what the default configuration loses itself in.
+var retrySolvers = []SolverSpec{
+	{"z3-5.1.0", func(f string, t int) []string { return []string{"z3-new", fmt.Sprintf("-T:%d", t), "-smt2", f} }},
+	{"z3-5.1.0/seed7", func(f string, t int) []string {
+		return []string{"z3-new", fmt.Sprintf("-T:%d", t), "smt.random_seed=7", "-smt2", f}
+	}},
+	{"z3-5.1.0/seed99", func(f string, t int) []string {
+		return []string{"z3-new", fmt.Sprintf("-T:%d", t), "smt.random_seed=99", "-smt2", f}
+	}},
+	{"z3-5.1.0/eager3", func(f string, t int) []string {
+		return []string{"z3-new", fmt.Sprintf("-T:%d", t), "smt.qi.eager_threshold=3", "-smt2", f}
+	}},
+	{"z3-4.8.12/seed5", func(f string, t int) []string {
+		return []string{"/usr/bin/z3", fmt.Sprintf("-T:%d", t), "smt.random_seed=5", "-smt2", f}
+	}},
+	{"cvc5-1.0.3", func(f string, t int) []string {
+		return []string{"/usr/bin/cvc5", fmt.Sprintf("--tlimit=%d", t*1000), "--lang=smt2", f}
+	}},
+	{"cvc5-1.0.3/nosimp", func(f string, t int) []string {
+		return []string{"/usr/bin/cvc5", fmt.Sprintf("--tlimit=%d", t*1000), "--simplification=none", "--lang=smt2", f}
+	}},
+}
+
 type SolveResult struct {
 	Status  string // unsat | sat | unknown
 	Backend string
@@ -149,10 +174,14 @@ var solverSem = make(chan struct{}, 16)
 // runQuery races the installed solvers on one SMT-LIB file. needAgree>1 asks
 // that many different solvers to return unsat before the answer is trusted.
 func runQuery(file string, timeoutS int, needAgree int, only []string) SolveResult {
-	return runQueryRace(file, timeoutS, needAgree, only)
+	return runQueryRace(solvers, file, timeoutS, needAgree, only)
 }
 
-func runQueryRace(file string, timeoutS int, needAgree int, only []string) SolveResult {
+func runQueryRetry(file string, timeoutS int, needAgree int) SolveResult {
+	return runQueryRace(retrySolvers, file, timeoutS, needAgree, nil)
+}
+
+func runQueryRace(solvers []SolverSpec, file string, timeoutS int, needAgree int, only []string) SolveResult {
 	type one struct {
 		name, status, out string
 		ms                int64
